@@ -161,7 +161,9 @@ def enum_paths(fn, max_paths=4000, max_len=400, start=0, stops=(), inner_loops="
                     continue
                 if fn.term(s)[0] == "unreachable":
                     continue
-                fs = edge_facts(fn, b, s)  # callbool facts keep their Call object at index 4
+                # callbool facts keep their Call object at index 4; flags assigned in several
+                # blocks are resolved to their definition on this path
+                fs = edge_facts(fn, b, s, path={pb: i for i, pb in enumerate(path + [b])})
                 feasible = True
                 for f in fs:
                     if f[0] == "variant" and f[3] is True and f[1] in decided and decided[f[1]] != f[2]:
